@@ -42,6 +42,15 @@ func VerifC20MaxDiffWatermark() {
 		payload[i] = octosql.NewInt(zzverif.Int64(fmt.Sprintf("p%d", i)))
 		msgs = append(msgs, vx.Msg{Kind: vx.MsgRecord, Rec: execution.Record{Values: []octosql.Value{octosql.NewTime(t), payload[i]}}})
 	}
+	if zzverif.ParamOr("SRCWM", 0) == 1 {
+		// the source emits a watermark of its own (arbitrary instant) at an arbitrary position: the
+		// generator replaces the source's watermarks by its own, so nothing of it may come out
+		at := zzverif.Choice("srcwm.pos", n+1)
+		wm, _ := ndUnixTime("srcwm")
+		withWM := append([]vx.Msg{}, msgs[:at]...)
+		withWM = append(withWM, vx.Msg{Kind: vx.MsgWatermark, Watermark: wm})
+		msgs = append(withWM, msgs[at:]...)
+	}
 	node := &maxDifferenceWatermarkGenerator{
 		source:         vx.NewScriptSource(msgs),
 		maxDifference:  execution.NewConstant(octosql.NewDuration(time.Duration(maxDiff))),
